@@ -63,15 +63,23 @@ class MonoFn:
         c.assume(tm.implies(tm.eq(x1, x2), tm.eq(y1, y2)))
 
 
-def bisect_case(shape, lower, upper, precision, increasing, tensor_bounds=False, max_iter=None, expect=None, controls=False):
+def bisect_case(shape, lower, upper, precision, increasing, tensor_bounds=False, max_iter=None, expect=None, controls=False, uppers=None):
     from pfhedge._utils.bisect import bisect
 
     def fn(c):
         f = MonoFn(c, shape, increasing)
-        r = api.tensor(c, "root", shape, lo=lower, hi=upper)
+        if uppers is None:
+            r = api.tensor(c, "root", shape, lo=lower, hi=upper)
+        else:
+            # per-element brackets of different widths: [lower, uppers[e]]
+            r = api.tensor(c, "root", shape, lo=lower)
+            for e_, u_ in zip(api.elems(r), uppers):
+                c.assume(api.le(e_, u_))
         target = f(r)  # targets inside the range of f on the bracket, root r
         lo_ = torch.full(shape, float(lower), dtype=torch.float64) if tensor_bounds else lower
-        up_ = torch.full(shape, float(upper), dtype=torch.float64) if tensor_bounds else upper
+        up_ = (torch.full(shape, float(upper), dtype=torch.float64) if tensor_bounds else upper) if uppers is None else None
+        if uppers is not None:
+            up_ = torch.tensor([float(u_) for u_ in uppers], dtype=torch.float64).reshape(shape)
         kw = {} if max_iter is None else {"max_iter": max_iter}
         if expect is not None:
             try:
@@ -87,7 +95,8 @@ def bisect_case(shape, lower, upper, precision, increasing, tensor_bounds=False,
         for idx in np.ndindex(*shape) if shape else [()]:
             o, rr = elem(out, *idx), elem(r, *idx)
             c.check("|bisect - root| <= precision %s" % (list(idx),), api.le(api.absv(o - rr), precision))
-            c.check("result inside the bracket %s" % (list(idx),), api.all_(api.ge(o, lower), api.le(o, upper)))
+            hi_ = upper if uppers is None else uppers[int(np.ravel_multi_index(idx, shape))]
+            c.check("result inside the bracket %s" % (list(idx),), api.all_(api.ge(o, lower), api.le(o, hi_)))
         if controls:
             idx = tuple(0 for _ in shape)
             c.control("control:|bisect - root| <= precision/8", api.le(api.absv(elem(out, *idx) - elem(r, *idx)), precision / 8))
@@ -184,6 +193,9 @@ def cases():
                        bounds="bracket [0,1], precision 1/64 (6 iterations), 0-dim", max_paths=8, timeout=60))
         cs.append(Case("bisect/%s/(3,)/2^-10" % d, bisect_case((3,), 0, 1, 1 / 1024, inc), tier="thorough", encodes=enc,
                        bounds="precision 2^-10 (10 iterations), 3 elements", max_paths=8, timeout=300))
+    for inc in (True, False):
+        cs.append(Case("bisect/%s/per-element-brackets" % ("inc" if inc else "dec"), bisect_case((3,), 0, None, 0.125, inc, tensor_bounds=True, uppers=(1, 4, 0.5)),
+                       encodes=enc, bounds="brackets [0,1], [0,4], [0,1/2] in one call, precision 1/8 (the widest needs 5 iterations)", max_paths=8, timeout=60))
     cs.append(Case("bisect/max_iter-too-small", bisect_case((2,), 0, 1, 1 / 64, True, max_iter=3, expect="RuntimeError"), encodes=enc,
                    bounds="needs 6 iterations, max_iter=3", max_paths=8))
     cs.append(Case("bisect/max_iter-exact", bisect_case((2,), 0, 1, 0.125, True, max_iter=3), encodes=enc, bounds="needs 3 iterations, max_iter=3", max_paths=8))
